@@ -5,6 +5,7 @@ import (
 	"fmt"
 	"os"
 	"path/filepath"
+	"sort"
 	"strings"
 
 	"github.com/bmatcuk/doublestar/v4"
@@ -205,45 +206,47 @@ func (ma *ModuleAnalyzer) analyzeModuleDependencies(graph *DependencyGraph, file
 		}
 
 		targetModule := ma.resolveImport(imp, filePath)
-		if targetModule != "" && ma.shouldIncludeDependency(targetModule) {
+		if targetModule == "" || !ma.shouldIncludeDependency(targetModule) {
+			continue
+		}
+
+		// Determine edge type
+		edgeType := DependencyEdgeImport
+		if imp.IsRelative {
+			edgeType = DependencyEdgeRelative
+		} else if imp.IsFromImport {
+			edgeType = DependencyEdgeFromImport
+		}
+
+		// "import a.b" depends on a.b. "from package import name" depends, for each
+		// imported name, on the module the name comes from: the source module of a
+		// re-export in the package's __init__.py, else the submodule package.name if
+		// there is one, else the package (or module) itself.
+		resolvedModules := []string{targetModule}
+		if imp.IsFromImport && len(imp.ImportedNames) > 0 {
+			resolvedModules = resolvedModules[:0]
+			seen := make(map[string]bool)
+			for _, importedName := range imp.ImportedNames {
+				resolvedModule := targetModule
+				if source, found := ma.reExportResolver.ResolveReExport(targetModule, importedName); found {
+					resolvedModule = source
+				} else if submodule := targetModule + "." + importedName; graph.GetModule(submodule) != nil {
+					resolvedModule = submodule
+				}
+				if !seen[resolvedModule] {
+					seen[resolvedModule] = true
+					resolvedModules = append(resolvedModules, resolvedModule)
+				}
+			}
+		}
+
+		for _, resolvedModule := range resolvedModules {
 			// Skip dependencies from __init__.py to its own submodules
 			// This is a common Python pattern for re-exporting (internal structure)
-			if strings.HasSuffix(filePath, "__init__.py") {
-				// Check if target is a submodule of the current package
-				if strings.HasPrefix(targetModule, moduleName+".") {
-					continue // Skip this dependency
-				}
+			if strings.HasSuffix(filePath, "__init__.py") && strings.HasPrefix(resolvedModule, moduleName+".") {
+				continue
 			}
-
-			// Determine edge type
-			edgeType := DependencyEdgeImport
-			if imp.IsRelative {
-				edgeType = DependencyEdgeRelative
-			} else if len(imp.ImportedNames) > 0 {
-				edgeType = DependencyEdgeFromImport
-			}
-
-			// For "from package import name" style imports, resolve through re-exports
-			// to find the actual source module. Each imported name may come from a
-			// different source module, so we need to add edges for each.
-			if len(imp.ImportedNames) > 0 && !imp.IsRelative {
-				resolvedModules := make(map[string]bool)
-				for _, importedName := range imp.ImportedNames {
-					if resolvedModule, found := ma.reExportResolver.ResolveReExport(targetModule, importedName); found {
-						resolvedModules[resolvedModule] = true
-					} else {
-						// Not a re-export, use the original target
-						resolvedModules[targetModule] = true
-					}
-				}
-				// Add dependency for each unique resolved module
-				for resolvedModule := range resolvedModules {
-					graph.AddDependency(moduleName, resolvedModule, edgeType, imp)
-				}
-			} else {
-				// Add dependency to graph
-				graph.AddDependency(moduleName, targetModule, edgeType, imp)
-			}
+			graph.AddDependency(moduleName, resolvedModule, edgeType, imp)
 		}
 	}
 
@@ -292,8 +295,10 @@ func (ma *ModuleAnalyzer) collectModuleImports(ast *parser.Node, filePath string
 
 		case parser.NodeImportFrom:
 			// Handle "from module import name" statements
+			// node.Module holds the dotted name without the leading dots of a relative
+			// import; the number of dots is node.Level.
 			module := node.Module
-			level := ma.calculateRelativeLevel(node.Module)
+			level := node.Level
 
 			// Get imported names - use map to deduplicate since names may appear
 			// in both node.Names and child Alias nodes depending on parser version
@@ -310,10 +315,12 @@ func (ma *ModuleAnalyzer) collectModuleImports(ast *parser.Node, filePath string
 			for name := range nameSet {
 				importedNames = append(importedNames, name)
 			}
+			sort.Strings(importedNames)
 
 			imp := &ImportInfo{
 				Statement:      ma.buildImportStatement(node),
 				ImportedNames:  importedNames,
+				IsFromImport:   true,
 				IsRelative:     level > 0,
 				Level:          level,
 				Line:           node.Location.StartLine,
@@ -349,22 +356,25 @@ func (ma *ModuleAnalyzer) resolveRelativeImport(imp *ImportInfo, fromFile string
 		return ""
 	}
 
-	// Get the directory of the current file
-	currentDir := filepath.Dir(fromFile)
-
-	// Navigate up the directory tree based on the level
-	targetDir := currentDir
-	for i := 0; i < imp.Level; i++ {
+	// Level 1 is the package of the importing file (its directory); every further
+	// dot goes up one more package.
+	targetDir := filepath.Dir(fromFile)
+	for i := 1; i < imp.Level; i++ {
 		targetDir = filepath.Dir(targetDir)
 	}
 
-	// Build the target module path
-	if imp.Statement != "" {
-		targetPath := filepath.Join(targetDir, strings.ReplaceAll(imp.Statement, ".", string(filepath.Separator)))
-		return ma.pathToModuleName(targetPath)
+	// A relative import cannot leave the top-level package: the project root itself
+	// is not a package.
+	basePackage := ma.pathToModuleName(targetDir)
+	if basePackage == "" || basePackage == "." || strings.HasPrefix(basePackage, "..") {
+		return ""
 	}
 
-	return ma.pathToModuleName(targetDir)
+	// "from .module import name" / "from . import name"
+	if imp.Statement != "" {
+		return basePackage + "." + imp.Statement
+	}
+	return basePackage
 }
 
 // resolveAbsoluteImport resolves absolute imports
@@ -649,19 +659,6 @@ func (ma *ModuleAnalyzer) walkStatements(node *parser.Node, typeChecking bool, v
 	for _, child := range node.Finalbody {
 		ma.walkStatements(child, typeChecking, visitor)
 	}
-}
-
-// calculateRelativeLevel calculates the level of relative import (number of dots)
-func (ma *ModuleAnalyzer) calculateRelativeLevel(module string) int {
-	level := 0
-	for _, char := range module {
-		if char == '.' {
-			level++
-		} else {
-			break
-		}
-	}
-	return level
 }
 
 // buildImportStatement builds the original import statement string
